@@ -68,6 +68,37 @@ Theorem c20_invalid_ignored_or_documented : forall f pr opts e, env_trimmed e = 
 Proof. exact invalid_ignored. Qed.
 Print Assumptions c20_invalid_ignored_or_documented.
 
+(** Precedence WITHOUT side conditions, for ALL options and ALL environment values (padded,
+    URLs with paths for gRPC, untidy / relative / empty option paths): timeout, endpoint and URL
+    path are option over signal-specific variable over generic variable over default, where each
+    family reads a provided value by its own documented convention ([norm_env]: trace / metric
+    trim white space, log does not; [gen_host]: trace / metric gRPC dial path.Join(host, path);
+    [gen_path]: trace / metric join and clean, log concatenates and sends as net/http does). *)
+Theorem c20_precedence_unguarded : forall f pr opts e,
+  let c := exporter_config f pr opts e in
+  let e' := norm_env f e in
+  c_tmo c = exp_tmo opts e' /\ c_host c = gen_host f pr opts e' /\ (pr = PHttp -> c_path c = gen_path f opts e').
+Proof. exact precedence_unguarded. Qed.
+Print Assumptions c20_precedence_unguarded.
+
+(** F-C20-7: OTEL_EXPORTER_OTLP_TIMEOUT=" 150": the trace exporter uses 150 ms, the log exporter
+    ignores the value (10 s): the uniform (trimmed) reading does not hold for the log family. *)
+Theorem c20_padded_value_refuted :
+  c_tmo (exporter_config FTrace PHttp [] env_pad) = 150000000%Z /\
+  c_tmo (exporter_config FLog PHttp [] env_pad) = default_timeout_ns /\
+  c_tmo (exporter_config FLog PHttp [] env_pad) <> exp_tmo [] (norm_env FTrace env_pad).
+Proof. exact padded_value_refuted. Qed.
+Print Assumptions c20_padded_value_refuted.
+
+(** F-C20-8: OTEL_EXPORTER_OTLP_ENDPOINT=http://h:1/x over gRPC: the trace exporter dials
+    "h:1/x" (and reaches nobody), the log exporter dials "h:1". *)
+Theorem c20_grpc_url_path_refuted :
+  c_host (exporter_config FTrace PGrpc [] env_grpc_path) = str "h:1/x" /\
+  c_host (exporter_config FLog PGrpc [] env_grpc_path) = str "h:1" /\
+  c_host (exporter_config FTrace PGrpc [] env_grpc_path) <> exp_host PGrpc [] env_grpc_path.
+Proof. exact grpc_url_path_refuted. Qed.
+Print Assumptions c20_grpc_url_path_refuted.
+
 (** The recorded non-uniformities: without the guards the statements are false. *)
 (** F-C20-3: OTEL_EXPORTER_OTLP_TRACES_ENDPOINT=http://h/custom/ is cleaned to /custom by the
     trace exporter (the log exporter uses /custom/). *)
@@ -197,6 +228,21 @@ Example ex_conn_and_tls :
   exporter_config FMetric PGrpc [OGRPCConn (str "a:3")] e =
   {| c_host := str "a:3"; c_path := str "/v1/metrics"; c_hdrs := []; c_gzip := false; c_tmo := 10000000000%Z;
      c_insec := true; c_conn := Some (str "a:3") |}.
+Proof. repeat split; vm_compute; reflexivity. Qed.
+
+(** Option paths outside the tidy ones: the families' conventions differ (covered by
+    [c20_precedence_unguarded], excluded from the uniform [c20_precedence]). *)
+Example ex_option_path_conventions :
+  c_path (exporter_config FTrace PHttp [OURLPath (str "custom/")] env0) = str "/custom" /\
+  c_path (exporter_config FLog PHttp [OURLPath (str "custom/")] env0) = str "/custom/" /\
+  c_path (exporter_config FMetric PHttp [OEndpointURL (str "http://h")] env0) = str "/v1/metrics" /\
+  c_path (exporter_config FLog PHttp [OEndpointURL (str "http://h")] env0) = str "/".
+Proof. exact option_path_conventions_differ. Qed.
+Example ex_unguarded_nontrivial :
+  let e := {| gen_ep := str "  http://h:9/a//b/ "; spec_ep := []; gen_hdr := []; spec_hdr := []; gen_comp := []; spec_comp := [];
+              gen_tmo := str "	7000 "; spec_tmo := str "x"; gen_insec := []; spec_insec := [] |} in
+  gen_path FMetric [] (norm_env FMetric e) = str "/a/b/v1/metrics" /\ gen_host FTrace PGrpc [] (norm_env FTrace e) = str "h:9/a/b" /\
+  exp_tmo [] (norm_env FTrace e) = 7000000000%Z /\ exp_tmo [] (norm_env FLog e) = default_timeout_ns.
 Proof. repeat split; vm_compute; reflexivity. Qed.
 
 Example ex_scrub : scrub ex_env <> ex_env /\ spec_tmo (scrub ex_env) = [] /\ gen_tmo (scrub ex_env) = str "3000".
